@@ -39,7 +39,8 @@ CONTRACTS = [
              modifies=["send_nonce"],
              ensures=[("nonce-used-once", "self.send_nonce == old(self.send_nonce) + 1")],
              internal_ensures=[("one-encryption", "n_events('box.encrypt') == 1"),
-                               ("nonce-is-the-counter", "nonce == be_enc(old(self.send_nonce), 24)")],
+                               ("nonce-is-the-counter", "event_arg('box.encrypt', 0, 2) == be_enc(old(self.send_nonce), 24) and "
+                                                        "event_arg('box.encrypt', 0, 1) == record")],
              effects=[("write", ["be_enc(len(record) + 40, 4)"]),
                       ("write", ["sbox_ct(self.send_box.key, be_enc(old(self.send_nonce), 24), record)"])],
              ensures_raise={"AssertionError": [("nothing-written", "len(bcall_names()) == 0"),
